@@ -153,15 +153,16 @@ MUTATORS = ('append', 'extend', 'insert', 'pop', 'remove', 'clear', 'update', 's
             'add', 'discard', 'set', 'remove_option', 'subtract', 'write', 'writelines', 'seek', 'truncate')
 
 
-def readonly_frame(repo, specs, may_call=(), tag='readonly', immutable_params=()):
+def readonly_frame(repo, specs, may_call=(), tag='readonly', immutable_params=(), forbidden_calls=()):
     """Frame obligation "this function only reads": one record per (relpath, qualname) in specs.  The function may not update in place
     anything reachable from its parameters (self included): no item/attribute/slice store, augmented store or delete whose root is a
     parameter or a local name bound to (part of) one, no mutator method call or heapq operation on such a root.  The obligation is closed
     under calls: a method called on `self` or a function of the same file that receives (part of) a parameter is analysed the same way
     with the corresponding parameters (a helper extracted from a covered function is followed, not rejected); functions named in
     `specs`/`may_call` have their own obligation / are accepted.  A call that can be resolved to none of these and receives part of a
-    parameter leaves the obligation undecided - only an updating statement that was found is a violation.  Syntactic, hence over all
-    paths."""
+    parameter leaves the obligation undecided - only an updating statement that was found is a violation.  A call of a method or function
+    named in `forbidden_calls` (the output point, the generators: known to write) is a violation wherever it occurs in the covered
+    functions.  Syntactic, hence over all paths."""
     by_file = {}
     specs = [tuple(x) + (None,) * (3 - len(x)) for x in specs]      # (relpath, qualname, [only these parameters] or None = all)
     names = {q.rsplit('.', 1)[-1] for _, q, _o in specs} | set(may_call)
@@ -251,6 +252,10 @@ def readonly_frame(repo, specs, may_call=(), tag='readonly', immutable_params=()
                         bad.append((n.lineno, 'store to %s' % ast.unparse(e)))
             if isinstance(n, ast.Call):
                 f = n.func
+                fname0 = f.attr if isinstance(f, ast.Attribute) else (f.id if isinstance(f, ast.Name) else None)
+                if fname0 in forbidden_calls:
+                    bad.append((n.lineno, 'call to %s, which writes (forbidden on this path)' % ast.unparse(f)))
+                    continue
                 if isinstance(f, ast.Attribute):
                     r, _ = root_of(f.value)
                     if f.attr in MUTATORS and r in tainted:
